@@ -1064,6 +1064,19 @@ func genC11(tier string, seed uint64, emit func(string)) {
 		}
 		emit(lifeLine("plain tls", []string{"start", "open:" + k + ":abc", "stallreq:abc", "rst:abc", "obs", "ping:" + k, "stop", "obs"}))
 	}
+	// several connections open at the same time that end, inside a request, in every order of arrival and departure:
+	// each leaves the registry when it ends, whatever the others did before it
+	perms := [][]string{{"a", "b", "c"}, {"a", "c", "b"}, {"b", "a", "c"}, {"b", "c", "a"}, {"c", "a", "b"}, {"c", "b", "a"}}
+	for pi, perm := range perms {
+		k := []string{"p", "t"}[pi%2]
+		acts := []string{"start", "open:" + k + ":a", "open:p:b", "open:" + k + ":c", "obs"}
+		ends := []string{"half", "cclose", "halfbulk", "rst", "halfcr", "unread"}
+		for i, id := range perm {
+			acts = append(acts, "cmd:"+id, ends[(pi+i)%len(ends)]+":"+id, "obs")
+		}
+		acts = append(acts, "ping:p", "open:p:d", "half:d", "obs", "stop", "obs")
+		emit(lifeLine("plain tls", acts))
+	}
 	r := NewRng(seed)
 	n := 60
 	if tier == "thorough" {
